@@ -6,7 +6,7 @@ LO=[None,' ']+[chr(97+i) for i in range(26)]
 MI=[None,' ']+[chr(i) for i in range(1,14)]+[chr(27),chr(28),chr(29),chr(30),chr(31),'@','\\','^','_','`','|','~',chr(127)]
 PU=[None,'\r','\r\n','. ',', ',': ','!','"','#','$','%','&',"'",'(',')','*','+',',','-','.','/',':',';','<','=','>','?','[',']','{','}']
 DI=[None,' ']+list('0123456789')+[',','.']
-def az_decode(bits):
+def az_decode(bits,ws=12):
     out=bytearray(); i=0; n=len(bits); mode='U'; shift=None
     def rd(k):
         nonlocal i
@@ -15,6 +15,7 @@ def az_decode(bits):
         cur=shift or mode
         w=4 if cur=='D' else 5
         if n-i<w: break
+        if n-i<ws and set(bits[i:])<={'1'}: break   # stuffing pad: a run of fewer than ws one-bits at a code boundary
         v=rd(w)
         wasshift=shift is not None; shift=None
         if cur=='U':
